@@ -22,6 +22,7 @@
  * Author(s):   Steve Kieffer   <http://skieffer.info>
 */
 
+#include <cmath>
 #include <deque>
 #include <iterator>
 #include <string>
@@ -811,6 +812,13 @@ void Tree::addConstraints(Graph &G, bool alignRoot) {
         std::sort(children.begin(), children.end(), transCoordCmp);
         size_t m = (n - 1)/2;
         Node_SP c = children[m];
+        // The middle child is a central child only if the symmetric layout put it in line with
+        // its parent, which it does only when exactly one isomorphism class of the child trees
+        // has odd order. Otherwise no child is central, and there is nothing to align.
+        Point uc = u->getCentre(),
+              cc = c->getCentre();
+        double offset = isVertical ? cc.x - uc.x : cc.y - uc.y;
+        if (std::fabs(offset) > 1e-6) continue;
         id_type id1 = u->id(),
                 id2 = c->id();
         matrix.alignByEquatedCoord(id1, id2, centreAlignCoord);
